@@ -233,6 +233,9 @@ class _TS:
     min = STime(TMIN)
     max = STime(TMAX)
 
+    def __new__(cls, x):  # pd.Timestamp(instant): the same instant
+        return x
+
 
 class FakePd:
     Timestamp = _TS
